@@ -174,6 +174,10 @@ def cases(tier, rng):
         cs.expect = ("fq", t, exp)
         out.append(cs)
         n += 1
+    # safety net: seeded random schedules over every socket type (partial reads, back-pressure, EOF, read/write errors,
+    # futures polled once or twice and then ABANDONED, sockets dropped) — every line predicted by the World model
+    for i in range(250 if tier == "quick" else 4000):
+        out.append(wg.random_case(rng, f"random-world#{i}", tags=("random-world",)))
     return out
 
 
